@@ -18,6 +18,11 @@ RULE = ("case = history of 0..2 committed sessions followed by one crashing "
         "evaluated at EVERY effect boundary of the crashing session (tfrec: "
         "every 8th boundary, TensorFlow's writes are not chunked). Non-trivial "
         "= more than 5 crash instants; distinct = distinct event digest.")
+STATE_MEASURE = ("event digest = SHA-1 of scheduler trace + FS effects + "
+                 "counters per run; abstract state = shape of the directory "
+                 "tree at a crash instant: multiset of (depth, file kind) with "
+                 "kinds {dataset_info.json, shards_list.json, temp update "
+                 "file, shard extension}")
 ASSUMPTIONS = C.ASSUMPTIONS + [
     "crash model: process dies, operating system stays up: the directory as "
     "it is after the effects issued so far (Python-buffered bytes lost) is "
@@ -32,7 +37,8 @@ def budget(tier):
 
 
 def gen_case(rng, tier, index):
-    n_prefix = rng.choice([0, 1, 1, 2])
+    n_prefix = rng.choice([0, 1, 1, 2] if tier == "quick" else
+                          [0, 1, 2, 3, 4])
     hist = dsgen.gen_history(
         rng, n_sessions=n_prefix + 1,
         formats=("fb", "fb", "fb", "npz", "npz", "npz", "tfrec"),
